@@ -26,6 +26,14 @@ CLAIMED = {
         note="float formatting modelled as exact half-even decimal rounding of the binary value (harness computes it with decimal); ASCII-only split/strip; int()/float() grammar without underscores",
         ref="DESIGN.md §4 C08",
     ),
+    "C10": dict(
+        text="Lean theorems about a model of cif.atom_site: for every row expressible in both formats the assembled text IS the standard PDB line of the same fields (no column shift from altloc, "
+        "insertion code, 4-character names, missing-value markers, 8-character coordinates), hence pdb.ATOM reads the same record; the record equals the row's own values; with several models "
+        "exactly the rows of the first model number reach Biomolecule. Full strength on the repaired tree (four fix: commits). Model fed with the rows mmcif-pdbx delivers and compared with the real read_cif + Biomolecule; "
+        "oracle = one abstract structure written as PDB and mmCIF by the harness's own writers and read by the real code, plus end-to-end PQRs on a sample.",
+        note="only the installed mmcif-pdbx 2.1.0 can be exercised ('any supported version' is partial); header categories are taken from a template (a CIF without them crashes read_cif: outside the generated domain)",
+        ref="DESIGN.md §4 C10",
+    ),
     "C17": dict(
         text="Lean theorems about a model of psize: every grid dimension is 32k+1 with k>=1 for every input and arithmetic; over Q the boxes are centred, enclose the extent and fine<=coarse (cfac>=1, fadd>=0); "
         "the extent covers every parsed atom sphere; memory formula and dime line; input file names the PQR; header lines ignored (after fix); line parser exact on writer output under the separation predicate, "
@@ -45,7 +53,7 @@ REASON_PENDING = "check under construction in this session; not claimed until it
 
 
 def main():
-    HOLD = {"C17"}  # built, proofs in progress
+    HOLD = {"C10"}  # built, proofs in progress
     claimed = [p["id"] for p in props if p["id"] in CLAIMED and p["id"] not in HOLD and (ROOT / "harness" / "props" / f"{p['id'].lower()}.py").exists()]
     m = {
         "version": 1,
